@@ -17,6 +17,9 @@ with five sub-checks (every case is one real call, judged by the float64 referen
                    configurations (expv / ExpFlow x align_corners x dtype), plus other-shape, SVF, compose_flows, logv
                    and other-steps/scale predecessors, are called one after the other in ONE process and every call is
                    judged by the closed form (a stateless API must not remember earlier calls)
+    object-sequence sequences of calls on ONE ExpFlow / SVF / SVFFD object (exp(v), exp(v, inverse=True), exp(v),
+                   exp.inv(v), exp(v), exp.inverse().inverse()(v), ...): every step equals expv of the (negated)
+                   velocity field value for value, forward steps also the closed form (state kept in the object)
     smooth-inverse exp(v) o exp(-v) = id and exp(-v) o exp(v) = id (composition evaluated by the
                    reference's own multilinear interpolator) within A * S2(v) samples, S2 = sum over axes
                    of the largest second difference of v in samples (second order in the amplitude A),
@@ -54,7 +57,7 @@ ASSUMPTIONS = [
 ]
 MIN_NONTRIVIAL = {"quick": 2000, "thorough": 9000}
 MIN_OUTCOMES = {"quick": 6500, "thorough": 35000}
-MIN_SUB_TRACES = {"closed-form": 4000, "inverse-flag": 500, "convergence": 100, "api-equal": 500, "smooth-inverse": 40, "call-sequence": 200}
+MIN_SUB_TRACES = {"closed-form": 4000, "inverse-flag": 500, "convergence": 100, "api-equal": 500, "smooth-inverse": 40, "call-sequence": 200, "object-sequence": 200}
 
 C = 64.0
 EPS = {"f32": 2.0 ** -23, "f64": 2.0 ** -52}
@@ -646,6 +649,137 @@ def case_call_sequence(case) -> Result:
     return r
 
 
+
+# ---------------------------------------------------------------------------
+# sequences of calls on ONE module / transform object (state kept inside the object)
+OBJ_PROGRAMS = {
+    "ExpFlow": [
+        ["fwd", "fwd(inverse=True)", "fwd", "inv", "fwd", "inverse.inverse", "inverse", "fwd"],
+        ["inv", "fwd", "inverse", "fwd(inverse=True)", "fwd", "fwd(inverse=True)"],
+    ],
+    "SVF": [
+        ["u", "inverse.u", "u", "inv.u", "u", "inverse.inverse.u", "inverse(update_buffers).u", "u"],
+        ["inv.u", "u", "inverse.u", "u"],
+    ],
+}
+OBJ_PROGRAMS["SVFFD"] = OBJ_PROGRAMS["SVF"]
+_INVERTING = {"fwd(inverse=True)", "inv", "inverse", "inv.u", "inverse.u", "inverse(update_buffers).u"}
+
+
+def _obj_step(obj, kind: str, step: str, flow):
+    """One observation on the SAME object. Returns the tensor the step yields."""
+    if kind == "ExpFlow":
+        if step == "fwd":
+            return obj(flow)
+        if step == "fwd(inverse=True)":
+            return obj(flow, inverse=True)
+        if step == "inv":
+            return obj.inv(flow)
+        if step == "inverse":
+            return obj.inverse()(flow)
+        if step == "inverse.inverse":
+            return obj.inverse().inverse()(flow)
+        raise KeyError(step)
+    if step == "u":
+        return obj.update().u
+    if step == "inverse.u":
+        return obj.inverse().update().u
+    if step == "inv.u":
+        return obj.inv.update().u
+    if step == "inverse.inverse.u":
+        return obj.inverse().inverse().update().u
+    if step == "inverse(update_buffers).u":
+        obj.update()
+        return obj.inverse(update_buffers=True).u
+    raise KeyError(step)
+
+
+def case_object_sequence(case) -> Result:
+    """exp(v), exp(v, inverse=True), exp(v), exp.inv(v), ... on one ExpFlow / SVF / SVFFD object: every step must
+    equal expv of the (negated) velocity field (value for value), forward steps also the closed form."""
+    from deepali.core.flow import expv
+
+    r = Result()
+    shape, ac, dtype = tuple(case["shape"]), case["ac"], case["dtype"]
+    D = len(shape)
+    kind, scale, steps = case["obj"], case["scale"], case["steps"]
+    G = generator(case["gen"], D, case["seed"])
+    tail = f"obj={kind}/" + _sigtail({**case, "N": 1})
+    flow = torch.tensor(fa.affine_field(G, shape, ac)[None], dtype=DT[dtype])
+
+    def build():
+        if kind == "ExpFlow":
+            from deepali.modules import ExpFlow
+
+            return ExpFlow(scale=scale, steps=steps, align_corners=ac), flow
+        from deepali.core import Grid
+
+        grid = Grid(shape=shape, align_corners=ac)
+        if kind == "SVF":
+            from deepali.spatial import StationaryVelocityFieldTransform
+
+            return StationaryVelocityFieldTransform(grid, groups=1, params=flow.clone(), scale=scale, steps=steps), flow
+        from deepali.spatial import StationaryVelocityFreeFormDeformation
+
+        t = StationaryVelocityFreeFormDeformation(grid, groups=1, params=False, stride=2, scale=scale, steps=steps).to(DT[dtype])
+        ds = tuple(t.data_shape)
+        cps = [(np.arange(n, dtype=np.float64) - 1.0) * st for n, st in zip(ds[1:], t.data_stride)]
+        mg = np.meshgrid(*cps, indexing="ij")
+        X = np.stack([2.0 * mg[D - 1 - c] / (shape[D - 1 - c] - 1) - 1.0 for c in range(D)], axis=-1)
+        Xh = np.concatenate([X, np.ones(X.shape[:-1] + (1,))], axis=-1)
+        t.data_(torch.tensor(np.moveaxis((Xh @ G.T)[..., :D], -1, 0)[None], dtype=DT[dtype]))
+        t.update()
+        return t, t.v.clone()
+
+    st, built = guarded(build)
+    r.trans += 1
+    if st == "raises":
+        r.bad(f"C11/object-sequence/{tail}/construct/raises={type(built).__name__}", exc_text(built))
+        return r
+    obj, vel = built
+    st, fwd = guarded(lambda: expv(vel, scale=scale, steps=steps, align_corners=ac))
+    st2, bwd = guarded(lambda: expv(-vel, scale=scale, steps=steps, align_corners=ac))
+    r.trans += 2
+    if "raises" in (st, st2):
+        e = fwd if st == "raises" else bwd
+        r.bad(f"C11/object-sequence/{tail}/expv/raises={type(e).__name__}", exc_text(e))
+        return r
+    sG = scale * G
+    closed = None
+    if kind != "SVFFD" and (steps == 0 or fa.ss_admissible(sG, steps, shape, ac)):
+        closed = fa.affine_field(fa.ss_closed(sG, steps), shape, ac)
+    tol = C * EPS[dtype] * (1 + steps) * max(fa.norm_inf(sG), 1e-6)
+    prog = case["program"]
+    for i, step in enumerate(prog):
+        st, out = guarded(_obj_step, obj, kind, step, flow)
+        r.trans += 1
+        name = f"step={step}/after={prog[i - 1] if i else 'new'}"
+        if st == "raises":
+            if kind != "ExpFlow" and "inv" in step:
+                r.undef.append("transform-inverse-raises (C07's subject)")
+                break
+            r.bad(f"C11/object-sequence/{tail}/{name}/raises={type(out).__name__}", exc_text(out))
+            break
+        exp = bwd if step in _INVERTING else fwd
+        if not isinstance(out, torch.Tensor) or out.shape != exp.shape:
+            r.bad(f"C11/object-sequence/{tail}/{name}/shape", f"{type(out).__name__} {getattr(out, 'shape', None)}")
+            break
+        r.outcomes.append(h64(_np(out)))
+        if not torch.equal(out, exp):
+            d = float((out.double() - exp.double()).abs().max())
+            d2 = float((out.double() - (fwd if exp is bwd else bwd).double()).abs().max())
+            r.bad(
+                f"C11/object-sequence/{tail}/{name}/differs-from-expv",
+                f"step {i + 1} of {prog} on one {kind} object: differs from expv({'-' if exp is bwd else ''}v) by {d:.3e} (from the opposite sign by {d2:.3e}); scale {scale}, steps {steps}, shape {shape}",
+            )
+        elif closed is not None and exp is fwd and float(np.abs(_np(out)[0] - closed).max()) > tol:
+            r.bad(f"C11/object-sequence/{tail}/{name}/mismatch", f"step {i + 1}: differs from the closed form by {float(np.abs(_np(out)[0] - closed).max()):.3e} > tol {tol:.2e}")
+    r.judged += 1
+    if not torch.equal(fwd, bwd) and not r.problems:
+        r.nontriv.append(h64("obj", case["shape"], ac, dtype, kind, scale, steps, prog))
+    return r
+
+
 KINDS = {
     "closed-form": case_closed_form,
     "inverse-flag": case_inverse_flag,
@@ -653,6 +787,7 @@ KINDS = {
     "convergence": case_convergence,
     "smooth-inverse": case_smooth,
     "call-sequence": case_call_sequence,
+    "object-sequence": case_object_sequence,
 }
 
 
@@ -695,6 +830,14 @@ def cases_of(shard):
                 for steps in bounds(tier)["smooth_steps"]:
                     for api, form in (("expv", "flag"), ("ExpFlow", "module.inverse"), ("SVF.u", "module.inverse")):
                         yield {**base, "which": which, "amp": amp, "steps": steps, "api": api, "form": form}
+    elif kind == "object-sequence":
+        for ac_ in (True, False):
+            for dt in ("f32", "f64"):
+                for obj in ("ExpFlow", "SVF") + (("SVFFD",) if ac_ else ()):
+                    for scale in (1.0, 0.5):
+                        for steps in (0, 4):
+                            for prog in OBJ_PROGRAMS[obj]:
+                                yield {"kind": kind, "shape": list(shape), "seed": seed, "ac": ac_, "dtype": dt, "obj": obj, "gen": "rot", "scale": scale, "steps": steps, "program": prog}
     elif kind == "call-sequence":
         yield {"kind": kind, "shape": list(shape), "seed": seed, "dtype": "mixed", "program": seq_program(shape)}
     else:
@@ -706,6 +849,7 @@ def shards(tier: str, seed: int):
     for shape in shapes(tier):
         # one process per shape: all ordered pairs of configurations are called one after the other
         out.append({"tier": tier, "seed": seed, "kind": "call-sequence", "shape": list(shape), "ac": True, "dtype": "mixed"})
+        out.append({"tier": tier, "seed": seed, "kind": "object-sequence", "shape": list(shape), "ac": True, "dtype": "mixed"})
     for shape in shapes(tier):
         for ac in (True, False):
             for dtype in ("f32", "f64"):
